@@ -22,7 +22,8 @@ RULE = (
     "Generated: one iteration-based task, 1-4 clients, 1-6 request scripts (client overhead before/after, 1-3 wire requests with "
     "gaps, service times 1/1024..12.5 s, outcome ok / success:false / ApiError 4xx,5xx / ConnectionTimeout under on-error=continue, "
     "return shape tuple/dict/None, weights, units), target throughput number / '<n> unit/s' / target-interval / none, deterministic or "
-    "poisson schedule, per-process perf_counter offset. Non-trivial = (throttled and at least one request started behind its schedule) "
+    "poisson schedule, per-process perf_counter offset; in a class of cases the shared completion event is set from outside at a drawn "
+    "instant while requests are in flight. Non-trivial = (throttled and at least one request started behind its schedule) "
     "or an error outcome was executed or clients >= 2. Distinct = distinct canonical JSON."
 )
 ASSUMPTIONS = [
@@ -31,12 +32,20 @@ ASSUMPTIONS = [
     "instants are dyadic rationals; comparisons use 1e-9 absolute tolerance",
 ]
 BUDGET = {"quick": 4000, "thorough": 25000}
-REQUIRED_CLASSES = {"behind-schedule": 100, "error-outcome": 100, "multi-client": 300}
+REQUIRED_CLASSES = {"behind-schedule": 100, "error-outcome": 100, "multi-client": 300, "completed-from-outside-with-request-in-flight": 100}
 TOL = 1e-9
 
 
+@st.composite
+def _case(draw):
+    spec = draw(gen_tasks.task_spec(focus="timing"))
+    # in a class of cases the task is asked to complete from outside (a completed-by partner finished) while requests are in flight
+    spec["complete_at"] = draw(st.sampled_from([None, None, None, 1 / 32, 0.3, 1.0, 2.5]))
+    return spec
+
+
 def strategy(tier, known):
-    return gen_tasks.task_spec(focus="timing")
+    return _case()
 
 
 def _eq(a, b):
@@ -54,7 +63,7 @@ def expected_ops(spec):
 
 
 def run_case(case, obs):
-    r = loadgen.run_task(case)
+    r = loadgen.run_task(case, complete_at=case.get("complete_at"))
     err = r["error"]
     tp = gen_tasks.reference_throughput(case.get("throughput"))
     # the one documented failure: target unit other than ops/s and the runner reports a different unit
@@ -138,4 +147,6 @@ def run_case(case, obs):
         obs.cls("error-outcome")
     if c >= 2:
         obs.cls("multi-client")
+    if case.get("complete_at") is not None and any(q["t_enter"] < case["complete_at"] < q.get("t_exit", -1) for q in r["requests"]):
+        obs.cls("completed-from-outside-with-request-in-flight")
     obs.mark_nontrivial(behind or errors_seen or c >= 2)
